@@ -114,6 +114,9 @@ func (g *Gen) Rule(userChains []string) Rule {
 			r.NotSyn = true
 		}
 	}
+	if r.Sport == "" && r.Dport == "" && !r.NotSyn && r.IcmpType == "" && g.Rng.Intn(12) == 0 {
+		r.Frag = true // later fragments carry no ports
+	}
 	return r
 }
 
@@ -227,7 +230,7 @@ func (g *Gen) Device(t *State, nedits int) (*State, []string) {
 	}
 	var ops []string
 	for k := 0; k < nedits; k++ {
-		switch g.Rng.Intn(14) {
+		switch g.Rng.Intn(15) {
 		case 0: // other next hop
 			if len(d.Routes) > 0 {
 				i := g.Rng.Intn(len(d.Routes))
@@ -298,6 +301,29 @@ func (g *Gen) Device(t *State, nedits int) (*State, []string) {
 					c.Policy = "ACCEPT"
 					ops = append(ops, "policy-changed")
 					break
+				}
+			}
+		case 14: // same number of options, one of them another option
+			if c := g.someChain(d); c != nil && len(c.Rules) > 0 {
+				r := &c.Rules[g.Rng.Intn(len(c.Rules))]
+				if r.Sport == "" && r.Dport == "" && !r.NotSyn && r.IcmpType == "" && r.Target != "LOG" && len(r.State) == 0 {
+					done := true
+					switch {
+					case r.In != "":
+						r.In = ""
+					case r.Out != "":
+						r.Out = ""
+					case r.Src != "" && !r.SrcNeg:
+						r.Src = ""
+					case r.Dst != "" && !r.DstNeg:
+						r.Dst = ""
+					default:
+						done = false
+					}
+					if done {
+						r.Frag = !r.Frag
+						ops = append(ops, "rule-option-swapped")
+					}
 				}
 			}
 		case 12, 13: // one value differs from the target's in one character only
